@@ -7,7 +7,7 @@
               T mod n of a ticket; the code stores residue r at the physical index cacheRemap16Byte(r), a
               bijection of [0, n) (C05_remap_bij), i.e. a renaming of the slots that no step observes.
      hd, tl : the head counter and the 63-bit ticket part of the tail word; closed = bit 63 of the tail
-              word (set by the LSCQ layer, label LClose).  Counters are unbounded (no 2^63 wrap-around).
+              word (set by the LSCQ layer, label LClose; LResetThr is the LSCQ layer's threshold store).  Counters are unbounded (no 2^63 wrap-around).
      thr    : threshold.
    n = scqsize (65536 in util.go); the theorems hold for every n >= 1.
    Threads: any number (thread ids are naturals; an idle thread starts a call chosen by the schedule).
@@ -73,7 +73,8 @@ Inductive label :=
 | LEnq (i : nat) (v : Z)     (* idle thread i invokes Enqueue(v) *)
 | LDeq (i : nat)             (* idle thread i invokes Dequeue() *)
 | LStep (i : nat)            (* thread i performs its next atomic access *)
-| LClose.                    (* the LSCQ layer closes the ring: atomicTestAndSetFirstBit(&cq.tail) *)
+| LClose                     (* the LSCQ layer closes the ring: atomicTestAndSetFirstBit(&cq.tail) *)
+| LResetThr.                 (* the LSCQ layer resets the threshold of a drained, closed ring: StoreInt64(&cq.threshold, 2*scqsize-1) *)
 
 Definition updf {A} (f : nat -> A) (i : nat) (x : A) : nat -> A := fun k => if Nat.eqb k i then x else f k.
 Definition updr (r : Z -> entry) (j : Z) (e : entry) : Z -> entry := fun k => if k =? j then e else r k.
@@ -224,6 +225,7 @@ Definition step0 (st : state) (l : label) : state :=
   | LDeq i => match th st i with Idle => invoke st i D0 | _ => st end
   | LStep i => tstep st i
   | LClose => set_closed st
+  | LResetThr => set_thr st thr_full
   end.
 
 Definition step (st : state) (l : label) : state := tick (step0 st l).
